@@ -415,6 +415,12 @@ func check(t ev.T, test string, c Case) {
 	elapsed := time.Since(began)
 
 	// ---- oracle ----
+	// "exactly one end message": whatever the library's own goroutines still have to say is given a moment to arrive
+	if c.Cancel != "" {
+		time.Sleep(60 * time.Millisecond)
+	} else if c.Entry != "output" {
+		time.Sleep(15 * time.Millisecond)
+	}
 	entries := rec.snapshot()
 	var gotOut, gotErr []string
 	framing := c.Entry != "output"
